@@ -38,8 +38,9 @@ class EnvProblem(Problem):
     """Objective = environment.  answer(k, y) is asked for the k-th evaluation attempt (1-based)
     and may raise.  Every successful evaluation is logged as (y copy, value)."""
 
-    def __init__(self, N, lower, upper, answer):
+    def __init__(self, N, lower, upper, answer, fresh_holder=False):
         super().__init__()
+        self.fresh_holder = fresh_holder   # return a new FunctionValue instead of filling the supplied one
         self.numberOfFloatVariables = N
         self.numberOfObjectives = 1
         self.numberOfConstraints = 0
@@ -57,6 +58,11 @@ class EnvProblem(Problem):
         self.attempts.append(y)
         v = self.answer(self.calls, y)
         self.log.append((y, v))
+        if self.fresh_holder:
+            from iOpt.trial import FunctionValue
+            out = FunctionValue(functionValue.type, functionValue.functionID)
+            out.value = v
+            return out
         functionValue.value = v
         return functionValue
 
@@ -133,11 +139,11 @@ class Snapshot:
 
 class SolverRun:
     def __init__(self, N=1, lower=None, upper=None, r=2.0, eps=0.01, itersLimit=20000, answer=None,
-                 density=None, refine=False, listeners=(), problem=None):
+                 density=None, refine=False, listeners=(), problem=None, fresh_holder=False):
         lower = [0.0] * N if lower is None else lower
         upper = [1.0] * N if upper is None else upper
         self.N = N
-        self.problem = problem if problem is not None else EnvProblem(N, lower, upper, answer)
+        self.problem = problem if problem is not None else EnvProblem(N, lower, upper, answer, fresh_holder)
         kw = dict(eps=eps, r=r, itersLimit=itersLimit, refineSolution=refine)
         if density is not None:
             kw["evolventDensity"] = density
